@@ -735,6 +735,19 @@ class CppLib:
                 c["methods"].append({"name": nm, "params": ps, "ret": r.choice(CPP_SCAL + [None]), "const": prev["const"] if prev else r.random() < 0.4,
                                      "static": prev["static"] if prev else r.random() < 0.2, "seed": r.getrandbits(40) | 1})
             self.classes.append(c)
+        # free functions sharing one name: C++ overloads plus one extern "C" function of that name, in random order (the n-th one gets the
+        # Rust name fovN; each must still reach its own symbol)
+        self.free = []
+        sigs = [[("a", CPP_SCAL[0])], [("a", CPP_SCAL[1])], [("a", CPP_SCAL[3]), ("b", CPP_SCAL[3])], [("a", CPP_SCAL[4]), ("b", CPP_SCAL[0])]]
+        r.shuffle(sigs)
+        n = r.choice([2, 3, 4])
+        cpos = r.randrange(n)
+        for k in range(n):
+            self.free.append({"params": sigs[k], "extern_c": k == cpos, "seed": r.getrandbits(40) | 1})
+
+    def free_proto(self, f, body=None):
+        p = "%slong long fov(%s)" % ('extern "C" ' if f["extern_c"] else "", ", ".join("%s %s" % (t[0], n) for n, t in f["params"]))
+        return p
 
     def cpp_ty(self, c):
         return ("%s::%s" % (c["ns"], c["name"])) if c["ns"] else c["name"]
@@ -769,6 +782,8 @@ class CppLib:
                 body += "  %s;\n" % self.mproto(c, m)
             cls = "class %s {\npublic:\n%s};\n" % (c["name"], body)
             s += ("namespace %s {\n%s}\n" % (c["ns"], cls)) if c["ns"] else cls
+        for f in self.free:
+            s += self.free_proto(f) + ";\n"
         return s
 
     def fold_field(self, expr, t):
@@ -810,6 +825,8 @@ class CppLib:
                     b += "  return %s;\n" % ("(h >> 4) & 1" if r_[1] == "bool" else ("(%s)((double)(long long)((h >> 5) %% 4096) - 2048.0) / 8" % r_[0] if r_[1] in ("f32", "f64") else "(%s)(h >> 3)" % r_[0]))
                 body += "%s {\n  %s}\n" % (self.mproto(c, m, True), b)
             s += ("namespace %s {\n%s}\n" % (c["ns"], body)) if c["ns"] else body
+        for f in self.free:
+            s += self.free_proto(f) + " { unsigned long long h = %dULL; %s last_h = h; return (long long)(h >> 7); }\n" % (f["seed"], " ".join(self.fold_field(n, t) for n, t in f["params"]))
         return s
 
     def callers(self):
@@ -873,6 +890,13 @@ class CppLib:
             if c["dtor"]:
                 for o in objs:
                     rs += "  %s.destruct();\n" % o
+        sc2 = lambda t: Sc(t[0], t[1], t[2])
+        for k, f in enumerate(self.free):
+            for rep in range(2):
+                vals = [scalar_value(r, sc2(t)) for _, t in f["params"]]
+                cpp += '  { long long r_ = fov(%s); printf("line %d %%016llx %%016llx\\n", last_h, (unsigned long long)r_); }\n' % (", ".join("(%s)%s" % (t[0], c_lit(sc2(t), v)) for (_, t), v in zip(f["params"], vals)), line)
+                rs += '  { let r_ = %s(%s); println!("line %d {:016x} {:016x}", last_h, r_ as u64); }\n' % ("fov" if k == 0 else "fov%d" % k, ", ".join(rs_lit(sc2(t), v) for (_, t), v in zip(f["params"], vals)), line)
+                line += 1
         # C++ destroys the objects at scope exit; count constructor calls now, destructor effects after an inner scope is not needed:
         cpp += '  printf("ctors %d\\n", ctor_count);\n  return 0;\n}\n'
         rs += '  println!("ctors {}", ctor_count);\n} }\n'
